@@ -3,7 +3,7 @@
     pass the certificates for the same constraint lists accept each pattern
     under exactly the same valuations, whatever answers the heuristic gave. *)
 From PM Require Import Model.Prelude Model.Domain Model.Automaton
-  Model.Traversal Model.DomString Cert.LabCheck Cert.WinCheck Proofs.AbsEquiv Proofs.StringExact Properties.C03.
+  Model.Traversal Model.DomString Model.DomMatrix Cert.LabCheck Cert.WinCheck Proofs.AbsEquiv Proofs.StringExact Proofs.MatrixExact Properties.C03.
 
 Theorem c04_heuristic_independent_acceptance :
   forall (K V M H P : Type) (D : DomOps K V M H P), DomEq D ->
@@ -41,5 +41,18 @@ Proof.
            C1 C2 R1 R2 Hp Hpr Hp Hpr Hne).
 Qed.
 
+Theorem c04_matrix_runs_agree :
+  forall A1 L1 rk1 ids1 A2 L2 rk2 ids2 (pats : list mpattern) (present : list bool) h f1 f2 ms1 ms2 i p s,
+    m_certified A1 L1 rk1 ids1 pats present -> m_certified A2 L2 rk2 ids2 pats present ->
+    run matrix_dom f1 A1 h = Ok ms1 -> run matrix_dom f2 A2 h = Ok ms2 ->
+    nth_error pats i = Some p -> nth_error present i = Some true ->
+    ((exists a b, In (N.of_nat i, MBound s a b) ms1) <-> (exists a b, In (N.of_nat i, MBound s a b) ms2)).
+Proof.
+  intros A1 L1 rk1 ids1 A2 L2 rk2 ids2 pats present h f1 f2 ms1 ms2 i p s C1 C2 R1 R2 Hp Hpr.
+  exact (m_certified_agree A1 L1 rk1 ids1 pats present A2 L2 rk2 ids2 pats present h f1 f2 ms1 ms2 i i p s
+           C1 C2 R1 R2 Hp Hpr Hp Hpr).
+Qed.
+
 Print Assumptions c04_heuristic_independent_acceptance.
+Print Assumptions c04_matrix_runs_agree.
 Print Assumptions c04_string_runs_agree.
